@@ -484,7 +484,8 @@ def _worker(jobs):
                 p0[v] = np.zeros_like(p0[v])
                 env = {u: (p0[u].ravel() if u in arrs else float(p0[u].ravel()[0])) for u in names}
                 try:
-                    ok = bool(np.all(feasible(rec, env)))
+                    ok = bool(np.all(feasible(rec, env))) and not on_arctan2_cut(
+                        rec['e'], {u: (float(a.ravel()[0]) if a.size == 1 else a) for u, a in p0.items()})
                     if ok:
                         # not on a branch cut: the spec's value and derivatives do not depend on the sign of the zero
                         m0 = {u: a.copy() for u, a in p0.items()}
